@@ -92,4 +92,4 @@ def run(Rn, tier, rng):
 
 
 def translator_tie():
-    return vlib.translator_tie(["view"])
+    return vlib.translator_tie(["view", "elem"])
